@@ -1,6 +1,7 @@
 # C01 ReliableOrdered: cursor / dedupe / id / release-ownership typestate (necessary conditions only)
 import re
 from sa.rules import *
+import rules.shared as shared
 
 RR, SR = "channel::reliable::ReceiveChannelReliable", "channel::reliable::SendChannelReliable"
 
@@ -96,4 +97,6 @@ def rules(t):
         extra = exits - legit
         if extra: r.bad("exit", Site(gp, list(extra)[0][0], 0, gp.blocks[list(extra)[0][0]]["term"]), f"retransmission loop can be left early through {sorted(extra)} (later messages starve)")
     out.append(r)
+    out.append(shared.ack_once(t, "C01.g"))
+    out.append(shared.seq_unique(t, "C01.h"))
     return out
